@@ -54,6 +54,10 @@ func c12Class(c *engine.C, idx int) (*jg.Class, []expApi) {
 	}
 	var exp []expApi
 	nm := []int{1, 2, 3}[c.Choose(3, pfx+"methods")]
+	overloads := c.Bool(pfx + "methods-are-overloads-of-one-name")
+	if overloads {
+		c.Tag("overloaded-handlers")
+	}
 	for i := 0; i < nm; i++ {
 		kind := c12MethodKinds[c.Choose(len(c12MethodKinds), fmt.Sprintf("%sm%d-kind", pfx, i))]
 		pk := c12ParamKinds[c.Choose(len(c12ParamKinds), fmt.Sprintf("%sm%d-params", pfx, i))]
@@ -108,6 +112,14 @@ func c12Class(c *engine.C, idx int) (*jg.Class, []expApi) {
 		case "request-body-first":
 			m.Params = []jg.Param{{Anns: []jg.Ann{{Name: "RequestBody"}}, Type: "Book", Name: "b"}, {Type: "int", Name: "n"}}
 			e.Body = "Book"
+		}
+		if overloads {
+			// same name, distinct parameter lists: i extra int parameters at the end
+			m.Name = fmt.Sprintf("h%d0", idx)
+			e.Method = m.Name
+			for k := 0; k < i; k++ {
+				m.Params = append(m.Params, jg.Param{Type: "int", Name: fmt.Sprintf("k%d", k)})
+			}
 		}
 		cls.Members = append(cls.Members, jg.Member{Method: m})
 		if isHandler && ctlAnn != "none" {
